@@ -372,7 +372,7 @@ func sCheckRun(prop string, filter func(name string) bool) func(env *Env) *Resul
 
 // racePostRun launches the free-running pass in the -race binary.
 func racePostRun(res *Result, tier string) {
-	bin := "/verif/.build/vcheck-race"
+	bin := VerifDir() + "/.build/vcheck-race"
 	if _, err := os.Stat(bin); err != nil {
 		res.Notes = append(res.Notes, "race pass skipped: "+bin+" not built")
 		return
